@@ -340,11 +340,10 @@ def r74(facts, res):
     c05.r57(facts, res, 'R7.8')       # the replay parses [i, end): an inclusive end moves the real stack further than the search did        # the replay on the real stacks moves as far as the sequence says: else the driver re-reports inside the repaired stretch
 
 
-def r75(facts, res):
+def r75(facts, res, R='R7.5'):
     """"a parse always returns": the search indexes its list of cost buckets with a neighbour's cost right after making room for
     it.  On every path from the top of the neighbour loop to that index, the length the list was just given (Vec::resize(v, n):
     n; Vec::push: +1) exceeds the index - with ANY token costs, not only when every cost is 1 (linear bounds domain A10)."""
-    R = 'R7.5'
     import linarith as LA
     bs = [x for x in facts.lib_bodies(['lrpar']) if strip_generics(x.path) == 'lrpar::dijkstra::dijkstra']
     if len(bs) != 1:
